@@ -39,13 +39,16 @@ PickB ==
              \/ cfg.h \in {H1(1, 1, 1, 1), H1(2, 2, 2, 2), H1(1, 2, 1, 3)})
        /\ cfg' = [aopt |-> cfg.aopt, ameta |-> cfg.ameta, kopt |-> cfg.kopt, kmeta |-> cfg.kmeta,
                   lopt |-> LO[lo], lmeta |-> LM[lm], ffile |-> ff,
-                  r1opt |-> S3[r1], r1meta |-> S3[r1m], r2opt |-> S3[r2], r2meta |-> S3[r2m]]
+                  r1opt |-> S3[r1], r1meta |-> S3[r1m], r2opt |-> S3[r2], r2meta |-> S3[r2m],
+                  \* spelling of the metadata keys (legacy names Area_ref / kexp / Localizacion are mapped to the
+                  \* CTE_ names by the parser) and verbosity of the run: neither may change the outcome
+                  legacy |-> ((cfg.h + lo + r1 + r2m) % 2 = 0), verbose |-> ((cfg.h + lm + r1m + r2) % 3)]
 Next == PickA \/ PickB
 Spec == Init /\ [][Next]_vars
 
 Done == ph = 2
 WellFormed ==
-  Done => /\ cfg \in Configs
+  Done => /\ [x \in DOMAIN cfg \ {"legacy", "verbose"} |-> cfg[x]] \in Configs
           /\ \A o \in Allowed(cfg) :
                /\ o.exit \in {0, 1, 64, 65}
                /\ (o.exit = 0 =>
